@@ -200,6 +200,9 @@ def run(ctx):
         run_demo(ctx, 'demo_ratsample.py', [2026 + ctx.seed], 'c16-topdown-pass-vs-model',
                  'RatSpn.sample / RatSpn.mpe against the Lean model of the layer-wise top-down pass (exact conditional pmf, law of sample, MPE rows)',
                  env_extra=dict(DEMO_STRIDE='6' if ctx.tier == 'quick' else '1'))
+        if ctx.n_new() == 0:
+            run_demo(ctx, 'demo_tr4.py', [1 + ctx.seed], 'c16-code-vs-generated-vs-model-4',
+                     'RAT-SPN top-down layers (product / sum / root mpe, unpad) vs generated definitions vs model', env_extra=dict(DEMO_SECTIONS='f'))
 
 
 def replay(rep):
